@@ -201,6 +201,11 @@ func ChildMain() {
 			_, _, _ = syscall.RawSyscall6(syscall.SYS_RT_SIGACTION, uintptr(syscall.SIGXFSZ), uintptr(unsafe.Pointer(&sa)), 0, 8, 0, 0)
 		}
 		fs := &storage.FileSystem{Options: storage.FileSystemOptions{Path: asStr(req["dir"])}}
+		if asStr(req["prelude"]) == "refused" {
+			// the same backend value has just refused a store (no-clobber over the bystander's entry):
+			// what it keeps from that call must not reach the entry written next
+			_ = fs.Store(storeDoc(asStr(req["refuse"]), 9), &storage.StoreOptions{NoClobber: true})
+		}
 		err := fs.Store(storeDoc(asStr(req["id"]), int(asInt(req["body"]))), &storage.StoreOptions{NoClobber: req["nc"] == true})
 		if err != nil {
 			res = "err"
@@ -522,7 +527,18 @@ func crashExplore(op M) any {
 	if hasOld {
 		oldDoc = storeDoc(id, int(asInt(op["bodyOld"])))
 	}
-	by := storeDoc("bystander", 7)
+	// "long": every identifier of the scenario is a long namespace-like string, all with the same
+	// first 150 bytes
+	pre := ""
+	if op["long"] == true {
+		pre = longNS
+		id = pre + id
+		newDoc = storeDoc(id, bodyNew)
+		if hasOld {
+			oldDoc = storeDoc(id, int(asInt(op["bodyOld"])))
+		}
+	}
+	by := storeDoc(pre+"bystander", 7)
 	enc, _ := proto.Marshal(newDoc)
 	root, err := os.MkdirTemp("", "verif-crash-")
 	if err != nil {
@@ -573,13 +589,13 @@ func crashExplore(op M) any {
 		if len(seq) == 0 || seq[len(seq)-1] != kind {
 			seq = append(seq, kind)
 		}
-		if b, err := fs.Retrieve("bystander", nil); !noDir && (err != nil || !proto.Equal(b, by)) {
+		if b, err := fs.Retrieve(pre+"bystander", nil); !noDir && (err != nil || !proto.Equal(b, by)) {
 			violations = append(violations, fmt.Sprintf("crash at %s: the entry of another identifier is damaged", what))
 		}
 		if what != "completion" {
 			// a later store under ANOTHER identifier must not change what the crashed identifier
 			// gives: still an error, the complete previous or the complete new document
-			if err := fs.Store(storeDoc("neighbour", 3), nil); err != nil {
+			if err := fs.Store(storeDoc(pre+"neighbour", 3), nil); err != nil {
 				violations = append(violations, fmt.Sprintf("crash at %s: a later store under another identifier fails: %v", what, err))
 			} else if d3, err := fs.Retrieve(id, nil); err == nil && !(d3 != nil && (proto.Equal(d3, newDoc) || (oldDoc != nil && proto.Equal(d3, oldDoc)))) {
 				violations = append(violations, fmt.Sprintf("crash at %s, then a store under another identifier: retrieve of the crashed identifier returns neither the previous nor the new document nor an error: %v", what, docView(d3, nil)))
@@ -590,7 +606,7 @@ func crashExplore(op M) any {
 				violations = append(violations, fmt.Sprintf("crash at %s: a later store of the same identifier fails: %v", what, err))
 			} else if d2, err := fs.Retrieve(id, nil); err != nil || !proto.Equal(d2, follow) {
 				violations = append(violations, fmt.Sprintf("crash at %s: after a later complete store, retrieve returns %v (error %v) instead of the stored document", what, docView(d2, nil), err))
-			} else if err := fs.Store(storeDoc("neighbour-2", 4), nil); err != nil {
+			} else if err := fs.Store(storeDoc(pre+"neighbour-2", 4), nil); err != nil {
 				violations = append(violations, fmt.Sprintf("crash at %s: a store under another identifier after the recovery fails: %v", what, err))
 			} else if d4, err := fs.Retrieve(id, nil); err != nil || !proto.Equal(d4, follow) {
 				// whatever the crash left behind, stores under other identifiers leave a complete entry alone
@@ -599,6 +615,10 @@ func crashExplore(op M) any {
 		}
 	}
 	req := M{"op": "storeOnce", "dir": dir, "id": id, "body": float64(bodyNew), "nc": nc}
+	if asStr(op["prelude"]) == "refused" && !noDir {
+		req["prelude"] = "refused"
+		req["refuse"] = pre + "bystander"
+	}
 	if asStr(op["tmpdir"]) == "missing" {
 		// the storing process runs with a temporary directory that does not exist: atomicity must not
 		// depend on the environment
@@ -637,9 +657,9 @@ func crashExplore(op M) any {
 }
 
 func crashGen(g *G, tier string) []M {
-	n := 7
+	n := 9
 	if tier == "thorough" {
-		n = 42
+		n = 49
 	}
 	var ops []M
 	for i := 0; i < n; i++ {
@@ -648,7 +668,13 @@ func crashGen(g *G, tier string) []M {
 			bn++ // the new document has nodes
 		}
 		op := M{"op": "crash", "id": g.Pick([]string{"doc-1", "urn:uuid:1", "a/b"}), "bodyNew": float64(bn), "nc": false}
-		switch i % 7 {
+		switch i % 8 {
+		case 7:
+			// the storing process has just been refused a store on the same backend value
+			op["prelude"] = "refused"
+			if g.Chance(0.5) {
+				op["bodyOld"] = float64(40 + g.Int(30))
+			}
 		case 1:
 			op["bodyOld"] = float64(40 + g.Int(30))
 		case 2:
@@ -669,6 +695,8 @@ func crashGen(g *G, tier string) []M {
 			}
 		case 6:
 			op["nodir"] = true // first-time store into a directory that does not exist yet
+		case 0:
+			op["long"] = i > 0 // the first scenario keeps short identifiers
 		}
 		ops = append(ops, op)
 	}
